@@ -99,8 +99,12 @@ impl<'i, R: RuleType> FlatPairs<'i, R> {
 
 impl<R: RuleType> ExactSizeIterator for FlatPairs<'_, R> {
     fn len(&self) -> usize {
-        // Tokens len is exactly twice as flatten pairs len
-        (self.end - self.start) >> 1
+        // One pair per `Start` token left in the window. (Half the window's length is only right
+        // before iteration starts: `start` and `end` move from one `Start` token to the next, so
+        // the `End` tokens of pairs that are still open stay inside the window.)
+        (self.start..self.end)
+            .filter(|&index| self.is_start(index))
+            .count()
     }
 }
 
